@@ -168,7 +168,9 @@ def run_case(case, ctx):
         finally:
             c.close()
         check_axes(o2, src_il, src_xl, src_s, n_il * n_xl, "reblocked")
-    elif then == "export" and case["route"] in ("segy", "segy-reduced"):
+    elif then == "export" and (case["route"] in ("segy", "segy-reduced")
+                               or (case["route"] == "numpy" and case["dt_us"] <= 32767 and -32768 <= case["delay"] <= 32767)):
+        # (a SEG-Y trace header holds the interval and the whole-millisecond delay in 16-bit fields)
         from seismic_zfp.conversion import SgzConverter
         o2 = os.path.join(d, "e.sgy")
         c = SgzConverter(out)
